@@ -226,6 +226,66 @@ fn run_family(menu: &[(&'static str, T)], n: usize, join_mode: u8, total: &Mutex
     );
 }
 
+/// Session pass: programs are entered and run one after the other in the *same* interpreter
+/// (previous lines deleted, RUN resets the rest), so every program but the first starts from
+/// a state left behind by hundreds of earlier runs, many of which failed.
+fn session_pass(menu: &[(&'static str, T)], n: usize, total: &Mutex<Acc>) -> u64 {
+    let base = menu.len() as u64;
+    let count = pow(base, n);
+    let idx: Vec<u64> = (0..count).collect();
+    idx.par_chunks(400).for_each(|chunk| {
+        let mut s = Sess::new();
+        let mut prev_lines: Vec<u64> = vec![];
+        let mut ran = 0u64;
+        for &i in chunk {
+            let seq: Vec<T> = decode_seq(i, base, n).iter().map(|k| menu[*k].1.clone()).collect();
+            for j in join_patterns(n, true) {
+                let prog = layout(&seq, j);
+                let (m, mend) = run_model(&prog, 1, false);
+                if matches!(mend, ModelEnd::Undefined(_) | ModelEnd::Cap) {
+                    continue;
+                }
+                for l in &prev_lines {
+                    let _ = s.apply(&Ev::Line(format!("{}", l)));
+                }
+                let lines = render_program(&prog);
+                for l in &lines {
+                    let _ = s.apply(&Ev::Line(l.clone()));
+                }
+                prev_lines = prog.keys().copied().collect();
+                s.recs.clear();
+                s.it.randomize(1);
+                let mut none = std::iter::empty();
+                let send = s.run_line("RUN", &mut none, SUBJECT_TURN_CAP);
+                if s.state() != abasic_core::InterpreterState::Idle {
+                    let _ = s.apply(&Ev::Break);
+                }
+                ran += 1;
+                let sout = s.printed();
+                let ok = match (&send, &mend) {
+                    (RunEnd::Idle, ModelEnd::Ended) => sout == m.output(),
+                    (RunEnd::Error(k, l), ModelEnd::Err(mk, ml)) => sout == m.output() && k == mk && l == ml,
+                    (RunEnd::Cap, _) => true,
+                    _ => false,
+                };
+                if !ok {
+                    let mut t = total.lock().unwrap();
+                    t.violating += 1;
+                    t.viol.push(Violation {
+                        signature: format!("{} :: in a long session: subject {:?}, reference {:?}", lines.join(" | "), send, mend),
+                        detail: format!("after {} earlier programs entered and run in the same interpreter, this program printed {:?} and ended {:?}; the reference prints {:?} and ends {:?}", ran - 1, truncate(&sout, 80), send, truncate(&m.output(), 80), mend),
+                        case: case_program(&lines, &[], 1),
+                    });
+                    return;
+                }
+            }
+        }
+        let mut t = total.lock().unwrap();
+        t.programs += ran;
+    });
+    count
+}
+
 pub fn run(thorough: bool) -> Report {
     let mut rep = Report::new("C03", "exploration");
     let total = Mutex::new(Acc::default());
@@ -276,6 +336,7 @@ pub fn run(thorough: bool) -> Report {
         run_family(menu, n, jm, &total);
         fams.push(json!({"menu": name, "menu_size": menu.len(), "statements": n, "join_layouts": match jm { 2 => "all 2^(n-1)", 1 => "none, all, each single join", _ => "none (one statement per line)" }}));
     }
+    let session_programs = session_pass(&full, 2, &total) + session_pass(&fnm, 3, &total);
     let acc = total.into_inner().unwrap();
     if acc.templates_run.len() < full.len() + 8 {
         machinery("vacuous: not every statement template was executed");
@@ -301,6 +362,7 @@ pub fn run(thorough: bool) -> Report {
         "exhaustive": true,
         "families": fams,
         "distinct_reference_outputs": acc.outputs.len(),
+        "session_pass_statement_sequences_run_in_long_lived_interpreters": session_programs,
         "reference_outcomes": acc.ends,
         "compared_on_prefix_because_of_turn_cap": acc.capped,
         "reference_undefined_not_compared": acc.undefined,
